@@ -448,3 +448,31 @@ def finish(ctx, level="model_checking"):
     if not ctx.violations:
         shutil.rmtree(ctx.work, ignore_errors=True)
     return 1 if ctx.violations else 0
+
+
+# ------------------------------------------------------------------ behaviours generated by TLC, replayed into the code
+def gen_replay(ctx, tag, gen_module, defs, consts, depth, num, to_line, exe, scope_args, trace_module, tconsts, props, tdefs=None):
+    """Simulate the model with a history variable, print each behaviour as JSON (Emit constraint), turn every
+    behaviour into an op script for the driver's replay mode, and validate the recorded trace (L1 + L2)."""
+    cfg = ("CONSTANTS\n" + consts + f"\n  GenDepth = {depth}\nSPECIFICATION GSpec\nCONSTRAINT Emit\nCONSTRAINT Bound\nCHECK_DEADLOCK FALSE\n")
+    name = "GEN_" + re.sub(r"\W", "_", tag)
+    r = tlc(ctx, "gen-" + tag, name, mc_module(name, gen_module, defs), cfg, simulate=f"num={num}", workers=4, timeout=600,
+            extra=["-depth", str(depth + 2), "-seed", str(ctx.seed)])
+    behaviours = []
+    for m in re.finditer(r'^"(\[.*\])"$', r.out, re.M):
+        try:
+            behaviours.append(json.loads(m.group(1).encode().decode("unicode_escape")))
+        except Exception:
+            pass
+    if not behaviours:
+        raise HarnessError(f"TLC produced no behaviours for {tag}: {r.out[-1500:]}")
+    script = ctx.work / f"{tag}.ops"
+    with open(script, "w") as f:
+        for b in behaviours:
+            f.write("reset\n")
+            for o in b:
+                f.write(to_line(o) + "\n")
+    run, res = impl_phase(ctx, tag, exe, ["replay", script], scope_args, trace_module, tdefs if tdefs is not None else defs, tconsts, props)
+    run["tlc_generated_behaviours"] = len(behaviours)
+    ctx.log(f"{tag}: {len(behaviours)} behaviours generated by TLC (depth {depth}) replayed into the real code")
+    return run
